@@ -51,6 +51,16 @@ def r1(ctx: Ctx) -> None:
                         ctx.report(f.where, f"rect-centre-unguarded {norm_stmt(n.ast)[:90]}", "a rectangle centre is written outside the 'hard and not fixed' branch: "
                                    "fixed modules must keep their rectangles", lineno=n.lineno)
     ctx.require(n_sites >= 3, "extract_solution: rectangle writes not found")
+    # rigidity: the only writes to rectangle centres are the two reflections; translation goes through recenter_rectangles
+    cfun = canon_function(f, ctx.model)
+    stores = atoms_of(cfun, lambda x: x[0] in ("set", "aug") and ((x[0] == "set" and len(x) == 3 and x[1][0] == "a" and x[1][2] in ("x", "y", "center") and contains(x[1], "rectangles") is False
+                                                                 and x[1][1][0] == "a" and x[1][1][2] == "center" and x[1][1][1][0] == "v") or
+                                                                (x[0] == "aug" and len(x) == 4 and x[2][0] == "a" and x[2][2] in ("x", "y") and x[2][1][0] == "a" and x[2][1][2] == "center")))
+    rect_stores = [st for st in stores if not (st[0] == "set" and st[2][0] == "poly" and to_poly(st[2]).t.get(((st[1], 1),)) == -1 and len(to_poly(st[2]).t) == 2)]
+    ctx.site(f.where, "the only direct writes to rectangle centres are the two reflections (c = 2*centre - c)", direct_writes=len(stores), non_reflections=len(rect_stores))
+    for st in rect_stores:
+        ctx.report(f.where, f"non-rigid-write {show(st)[:120]}", "a rectangle centre of a hard module is written other than by the module-wide translation (recenter_rectangles) or the "
+                   "reflection about the module centre: rectangles of one module can move by different amounts, i.e. the module is reshaped", lineno=f.node.lineno)
     # no shape writes in the whole optimiser
     n_shape = 0
     for fn in ctx.model.all_functions():
@@ -140,8 +150,10 @@ def r2(ctx: Ctx) -> None:
                             b, it, cond = comp[3][0]
                             amod = [a for a in atoms_of(it, lambda x: x[0] == "a" and x[2] == "a")]
                             if comp[2][0][0] == "s" and comp[2][0][2] == cvar and comp[2][0][1][0] == "s" and comp[2][0][1][2] == b and cond == K_TRUE and amod \
-                                    and (it == ("c", ("a", amod[0], "keys"), (), ()) or it == amod[0]) and lp[2] == ("c", ("g", "range"), (lp[2][2][0],), ()):
-                                ok = True
+                                    and (it == ("c", ("a", amod[0], "keys"), (), ()) or it == amod[0]) and lp[2] == ("c", ("g", "range"), (lp[2][2][0],), ()) \
+                                    and st in lp[3] and not any(x[0] in ("if", "continue", "break") for x in lp[3][:list(lp[3]).index(st)]) \
+                                    and contains(lp[2], "num_rectangles"):
+                                ok = True     # posted unconditionally, for every cell of the allocation
                                 n_cells = lp[2][2][0]
     if not ok:
         ctx.report(f.where, "capacity-equation", "no equation 'sum over all modules of a[m][c] <= 1' is posted for every cell", lineno=f.node.lineno)
